@@ -40,6 +40,7 @@ NP = {"iadd": np.add, "isub": np.subtract, "imul": np.multiply, "idiv": np.true_
 IOP_NAMES = sorted(IOPS)
 STRIDED = [0]
 LATEST_USED = [0]
+COMPREFS = []       # (entity, component index, the Array object obtained as v.x / v.y / v.z) of the current history
 
 
 def plan(tier):
@@ -47,7 +48,8 @@ def plan(tier):
             "required_monitors": ["inplace-model", "array-identity", "rhs-unchanged", "copy-independent",
                                   "container-copy-shallow", "deepcopy-independent", "view-shares-memory",
                                   "aliases-observe-update", "inplace-must-raise"],
-            "required_tags": ["ramses-dataset-copy", "non-contiguous-buffers", "update-through-returned-vector"]}
+            "required_tags": ["ramses-dataset-copy", "non-contiguous-buffers", "update-through-returned-vector",
+                              "component-reference-held"]}
 
 
 def cases(ctx):
@@ -141,6 +143,14 @@ def _check_all(res, label, ents, groups, views, steps):
                     res.violate(mech, f"{label}: {e.name}[{ci}] seen through {where}: {msg}; unit {c.unit!s} dtype {c.dtype}",
                                 steps=steps)
                     return False
+    for (ce, ci, ref) in COMPREFS:
+        if ce.dead or ci >= len(ce.q):
+            continue
+        msg = compare_quantity(ref.values, ref.unit, ce.q[ci], 16 * rtol_for(ref.dtype), None)
+        if msg:
+            res.violate("component-reference-does-not-observe", f"{label}: the Array obtained earlier as {ce.name}.{'xyz'[ci]} no "
+                        f"longer shows that component: {msg}; unit {ref.unit!s}", steps=steps)
+            return False
     for (pe, idx, view, desc) in views:
         if pe.dead:
             continue
@@ -249,6 +259,7 @@ def run_case(case, ctx, res):
     n = int(rng.integers(1, 6)) if rng.random() < 0.9 else None
     strided0 = STRIDED[0]
     latest0 = LATEST_USED[0]
+    COMPREFS.clear()
     ents = []
     groups = {"g1": osy.Datagroup(), "g2": osy.Datagroup()}
     views = []
@@ -271,8 +282,26 @@ def run_case(case, ctx, res):
     for step in range(nsteps):
         live = [e for e in ents if not e.dead]
         e = live[int(rng.integers(0, len(live)))]
-        op = ["inplace", "inplace", "inplace", "copy", "view", "container", "deepcontainer"][int(rng.integers(0, 7))]
+        op = ["inplace", "inplace", "inplace", "copy", "view", "container", "deepcontainer", "component-ref"][int(rng.integers(0, 8))]
         label = f"step {step} {op} after {steps}"
+        if op == "component-ref":
+            # keep a reference to one component Array of a Vector (vx = v.x), possibly stored in a group of its own: it is
+            # "the same data", so it must observe every later update of the Vector - value and unit
+            vecs = [x for x in live if type(x.obj).__name__ == "Vector"]
+            if not vecs:
+                continue
+            e = vecs[int(rng.integers(0, len(vecs)))]
+            have = [c for c in "xyz" if getattr(e.obj, c) is not None]
+            ci = int(rng.integers(0, len(have)))
+            ref = getattr(e.obj, have[ci])
+            if rng.random() < 0.5 and ref.shape == groups["g2"].shape or len(groups["g2"]) == 0:
+                o = attempt(groups["g2"].__setitem__, f"{e.name}_{have[ci]}", ref)
+                if not o.ok:
+                    continue
+            COMPREFS.append((e, ci, ref))
+            steps.append(f"component-ref({e.name}.{have[ci]})")
+            res.tag("component-reference-held")
+            continue
         if op == "inplace":
             ok = _inplace(osy, rng, res, e, ents, groups, views, steps, label, n)
             if ok is None:
